@@ -260,7 +260,9 @@ class ProxyKmipClient(object):
             return result.uuid
         else:
             reason = result.result_reason.value
-            message = result.result_message.value
+            message = None
+            if result.result_message is not None:
+                message = result.result_message.value
             raise exceptions.KmipOperationFailure(status, reason, message)
 
     @is_connected
@@ -386,7 +388,9 @@ class ProxyKmipClient(object):
             return public_uid, private_uid
         else:
             reason = result.result_reason.value
-            message = result.result_message.value
+            message = None
+            if result.result_message is not None:
+                message = result.result_message.value
             raise exceptions.KmipOperationFailure(status, reason, message)
 
     @is_connected
@@ -577,7 +581,9 @@ class ProxyKmipClient(object):
             return result.uuid
         else:
             reason = result.result_reason.value
-            message = result.result_message.value
+            message = None
+            if result.result_message is not None:
+                message = result.result_message.value
             raise exceptions.KmipOperationFailure(status, reason, message)
 
     @is_connected
@@ -867,7 +873,9 @@ class ProxyKmipClient(object):
             return result.uuids
         else:
             reason = result.result_reason.value
-            message = result.result_message.value
+            message = None
+            if result.result_message is not None:
+                message = result.result_message.value
             raise exceptions.KmipOperationFailure(status, reason, message)
 
     @is_connected
@@ -994,7 +1002,9 @@ class ProxyKmipClient(object):
             return managed_object
         else:
             reason = result.result_reason.value
-            message = result.result_message.value
+            message = None
+            if result.result_message is not None:
+                message = result.result_message.value
             raise exceptions.KmipOperationFailure(status, reason, message)
 
     @is_connected
@@ -1038,7 +1048,9 @@ class ProxyKmipClient(object):
             return result.uuid, result.attributes
         else:
             reason = result.result_reason.value
-            message = result.result_message.value
+            message = None
+            if result.result_message is not None:
+                message = result.result_message.value
             raise exceptions.KmipOperationFailure(status, reason, message)
 
     @is_connected
@@ -1068,7 +1080,9 @@ class ProxyKmipClient(object):
             return attribute_names
         else:
             reason = result.result_reason.value
-            message = result.result_message.value
+            message = None
+            if result.result_message is not None:
+                message = result.result_message.value
             raise exceptions.KmipOperationFailure(status, reason, message)
 
     @is_connected
@@ -1101,7 +1115,9 @@ class ProxyKmipClient(object):
             return
         else:
             reason = result.result_reason.value
-            message = result.result_message.value
+            message = None
+            if result.result_message is not None:
+                message = result.result_message.value
             raise exceptions.KmipOperationFailure(status, reason, message)
 
     @is_connected
@@ -1157,7 +1173,9 @@ class ProxyKmipClient(object):
             return
         else:
             reason = result.result_reason.value
-            message = result.result_message.value
+            message = None
+            if result.result_message is not None:
+                message = result.result_message.value
             raise exceptions.KmipOperationFailure(status, reason, message)
 
     @is_connected
@@ -1189,7 +1207,9 @@ class ProxyKmipClient(object):
             return
         else:
             reason = result.result_reason.value
-            message = result.result_message.value
+            message = None
+            if result.result_message is not None:
+                message = result.result_message.value
             raise exceptions.KmipOperationFailure(status, reason, message)
 
     @is_connected
@@ -1572,7 +1592,9 @@ class ProxyKmipClient(object):
             return uid, mac_data
         else:
             reason = result.result_reason.value
-            message = result.result_message.value
+            message = None
+            if result.result_message is not None:
+                message = result.result_message.value
             raise exceptions.KmipOperationFailure(status, reason, message)
 
     def _build_key_attributes(self, algorithm, length, masks=None):
